@@ -39,15 +39,16 @@ ASSUMPTIONS = ["leaf results come from an independent instance of the same leaf 
                "construction or grading error on such a configuration is reported as a violation",
                "SingleListGrader leaf inputs have no empty items (missing_error would raise by design)",
                "a grading call is given 10 s (normal: < 5 ms) before it counts as non-terminating"]
-REQUIRED = {'flat/unordered': 600, 'flat/ordered/single-subgrader': 150, 'flat/ordered/subgrader-list': 150,
-            'lists=1': 500, 'lists=2': 200, 'lists=3': 150, 'lists/different-optima': 150, 'lists/best-not-first': 80,
-            'answers/alternatives': 300, 'n=2': 100, 'n=3': 100, 'n=4': 100, 'n=5': 100, 'n=6': 100,
-            'perms/all': 500, 'perms/sampled-n6': 50, 'pc-off/zeroed': 200, 'pc-off/perfect-kept': 60,
-            'unordered/identity-not-optimal': 500, 'unordered/several-optimal-assignments': 300,
-            'result/has-partial-entry': 500, 'grouped/unordered': 300, 'grouped/ordered/subgrader-list': 300,
-            'grouped/ordered/single-subgrader': 50, 'grouped/interleaved': 400, 'grouped/n=7-8': 150,
-            'nested/ListGrader': 500, 'nested/SingleListGrader': 100, 'nested/depth-3': 50,
-            'nested/pc-off-zeroed': 50, 'nested/answer-alternatives': 50}
+REQUIRED = {'flat/unordered': 5000, 'flat/ordered/single-subgrader': 1500, 'flat/ordered/subgrader-list': 250,
+            'lists=1': 5000, 'lists=2': 3000, 'lists=3': 500, 'lists/different-optima': 3000,
+            'lists/best-not-first': 1500, 'answers/alternatives': 2000, 'n=2': 5000, 'n=3': 5000, 'n=4': 5000,
+            'n=5': 300, 'n=6': 250, 'perms/all': 1200, 'perms/sampled-n6': 300, 'pc-off/zeroed': 5000,
+            'pc-off/perfect-kept': 3000, 'unordered/identity-not-optimal': 20000,
+            'unordered/several-optimal-assignments': 20000, 'result/has-partial-entry': 10000,
+            'grouped/unordered': 2000, 'grouped/ordered/subgrader-list': 800, 'grouped/ordered/single-subgrader': 120,
+            'grouped/interleaved': 2500, 'grouped/n=7-8': 2000, 'nested/ListGrader': 3000,
+            'nested/SingleListGrader': 500, 'nested/depth-3': 100, 'nested/pc-off-zeroed': 300,
+            'nested/answer-alternatives': 500}
 
 PAL = [0, 0.1, 1 / 3, 0.5, 0.7, 1]
 TOL = 1e-9
@@ -905,7 +906,7 @@ PARTS = [
     Part('enum3', 'enum', judge_enum, items=items_enum3, exhaustive=True),
     Part('enumlists', 'enum', judge_enum, items=items_enumlists, exhaustive=True),
     Part('groupings', 'enum', judge_grouping, items=items_groupings, exhaustive=True),
-    Part('flat', 'hyp', judge_case, strategy=lambda tier: flat_cases(), budget={'quick': 2400, 'thorough': 45000}),
+    Part('flat', 'hyp', judge_case, strategy=lambda tier: flat_cases(), budget={'quick': 2400, 'thorough': 60000}),
     Part('grouped', 'hyp', judge_case, strategy=lambda tier: grouped_cases(),
-         budget={'quick': 1800, 'thorough': 36000}),
+         budget={'quick': 1800, 'thorough': 45000}),
 ]
